@@ -54,7 +54,7 @@ type Queue struct {
 }
 
 func New(opts Options) (*Queue, error) {
-	return &Queue{
+	q := &Queue{
 		cond:            sync.NewCond(&sync.Mutex{}),
 		clientID:        opts.ClientID,
 		max:             opts.MaxQueuedMsg,
@@ -66,7 +66,15 @@ func New(opts Options) (*Queue, error) {
 		inflightExpiry:  opts.InflightExpiry,
 		notifier:        opts.DefaultNotifier,
 		log:             server.LoggerWithField(zap.String("queue", "redis")),
-	}, nil
+	}
+	// The list may already hold the messages of a stored session (broker restart): messages can be added to it
+	// before the session is resumed (Init), so the length has to be known from the beginning.
+	conn := q.pool.Get()
+	defer conn.Close()
+	if err := q.setLen(conn); err != nil {
+		return nil, err
+	}
+	return q, nil
 }
 
 func wrapError(err error) *codes.Error {
